@@ -11,11 +11,11 @@ CLAIMED = {
          "Trusted: MD4, os.Root/renameio. Not covered: offsets/window/block arithmetic, token encoding, name mapping of source arguments, option combinations. One genuine defect repaired by a fix: commit (F24).",
          "DESIGN.md §13"),
  "C16": ("SSA guard dominance at the whole-file request sites, natural-loop membership of the candidate-rejection edges, store analysis of the scan position, allocation-site/loop analysis of the per-file lookup structures, structural shape of the block-checksum loop",
-         "Partial, structural; the bound on literal bytes is NOT decided. Decides necessary conditions of 'unchanged data is found again': the generator requests the whole file only when the destination is missing, not regular or cannot be opened, and otherwise sums the opened destination file; every block up to SumSizesSqroot's count gets its weak and strong sum over the bytes just read; the sender tries every candidate with the window's tag (rejections continue the candidate loop) at every byte offset (outside the match path the scan position only ever advances by one, on every iteration); the lookup structures and Transfer.lastMatch are rebuilt/reset for every file; the targets are sorted by a comparator that is an ordering of the tags.",
+         "Partial, structural; the bound on literal bytes is NOT decided. Decides necessary conditions of 'unchanged data is found again': the generator requests the whole file only when the destination is missing, not regular or cannot be opened, and otherwise sums the opened destination file; every block up to SumSizesSqroot's count gets its weak and strong sum over the bytes just read; the sender tries every candidate with the window's tag (rejections continue the candidate loop) at every byte offset (outside the match path the scan position only ever advances by one, on every iteration); the lookup structures and Transfer.lastMatch are rebuilt/reset for every file; the targets are sorted by a comparator that is an ordering of the tags; no slice of the read window is kept across ptr calls; a from-scratch recomputation of the rolling checksum precedes the roll of its iteration.",
          "Trusted: the checksum definitions (C02/ONE-DEFINITION). Not covered: rolling-checksum algebra, tag function, block-size selection, the end bound — arithmetic over runtime data.",
          "DESIGN.md §13"),
  "C18": ("store/effect scan over the session call tree (escape-edge VTA graph), allocation-site provenance of session objects, per-goroutine field access partition, SSA dominance for joins, structural shape of the cancellation select",
-         "Partial. Decides the data-race side structurally (there are no locks, so shared state must not be written): no session-reachable store to package-level or server-wide state; session objects are allocated per session; the only package-level variables session code touches are a reviewed allow-table; the generator and receiver goroutines partition the fields they write; results are read after the join. For termination only the necessary condition that waitFor returns on cancellation without waiting for the abandoned goroutine. Deadlock freedom/termination under all schedules is NOT decided (not applicable to static analysis).",
+         "Partial. Decides the data-race side structurally (there are no locks, so shared state must not be written): no session-reachable store to package-level or server-wide state; session objects are allocated per session; the only package-level variables session code touches are a reviewed allow-table; the generator and receiver goroutines partition the fields they write; results are read after the join; temporary files are renameio pending files (random name, O_EXCL), never names derived from the target, so two sessions receiving the same path cannot share one. For termination only the necessary condition that waitFor returns on cancellation without waiting for the abandoned goroutine. Deadlock freedom/termination under all schedules is NOT decided (not applicable to static analysis).",
          "Trusted: errgroup/context semantics; embedding program's logger. Authorised-SSH users re-entering the CLI are a new program run, not session code.",
          "DESIGN.md §3 C18"),
  "C11": ("path enumeration with events over the generator (must-pass-through setPerms), finite-assignment CFG walks for option guards and type tables (phi-choice tracking), provenance of metadata field bindings",
@@ -23,7 +23,7 @@ CLAIMED = {
          "Trusted: kernel/os.Root metadata calls. One genuine defect repaired by a fix: commit.",
          "DESIGN.md §3 C11"),
  "C14": ("wire-sequence extraction by finite-assignment CFG walk of encoder and decoder (compared with each other, no oracle), emission-table ∘ parse-table composition over all option assignments, sibling agreement of the two TransferOpts literals, handshake sequence extraction",
-         "Decides: for all 7×64 (file type × option subset) assignments the decoder consumes exactly what the encoder emits; every option the server consults is forwarded and arrives with the client's value (2^n assignments through the extracted emission and parse tables); both receiver configurations bind fields to the same accessors; handshake and filter-list reads/writes are mirror images; a zero-terminated list never carries an empty string; option post-processing (recurse ⇒ dirs) is applied on both ends. Desynchronisation freedom for options outside the accepted set is not decided.",
+         "Decides: for all 7×64 (file type × option subset) assignments the decoder consumes exactly what the encoder emits; every option the server consults is forwarded and arrives with the client's value (2^n assignments through the extracted emission and parse tables); both receiver configurations bind fields to the same accessors; handshake, filter-list and id-list reads/writes are mirror images (same options, same order); a zero-terminated list never carries an empty string; option post-processing (recurse ⇒ dirs) is applied on both ends. Desynchronisation freedom for options outside the accepted set is not decided.",
          "Trusted: the extraction vocabulary (atoms) — anything outside it makes the check undecided (fails closed). Two genuine defects repaired by fix: commits.",
          "DESIGN.md §3 C14"),
  "C15": ("wire-sequence extraction (7×64 encoder, 7×64×128 decoder assignments) compared with a frozen protocol-27 table; constant table; sibling agreement (longint, checksum header); sort/numbering dominance",
@@ -47,7 +47,7 @@ CLAIMED = {
          "Trusted: fs.WalkDir SkipDir semantics. Five genuine defects found by these rules were repaired by fix: commits (known_findings.json).",
          "DESIGN.md §3 C13"),
  "C02": ("SSA guard dominance with value identity (same block index i across weak, length and strong comparisons) + who-may-call for checksum definitions + field-store provenance of the seed + affine-form evaluation (no solver) of the token codec and of matched's range bookkeeping + guarded-leaf tables for block lengths",
-         "Partial, structural: a block reference is emitted only after weak, length and strong (seeded MD4, sliced by the negotiated length) comparisons for that same block; one shared checksum definition used by both ends with the session seed; the whole-file trailer is always sent; a reallocated read window keeps its contents; a read window never extends past the mapped file size; the block-reference codec of the two ends composes to the identity; both ends give block i the same length (remainder only for the last block); sender.matched partitions the file (literal run, bytes hashed and lastMatch advance agree as affine forms). The search loop's own offset arithmetic, the rolling checksum and the receiver's literal handling are NOT decided.",
+         "Partial, structural: a block reference is emitted only after weak, length and strong (seeded MD4, sliced by the negotiated length) comparisons for that same block; one shared checksum definition used by both ends with the session seed; the whole-file trailer is always sent; a reallocated read window keeps its contents; a read window never extends past the mapped file size; the block-reference codec of the two ends composes to the identity; both ends give block i the same length (remainder only for the last block); sender.matched partitions the file (literal run, bytes hashed and lastMatch advance agree as affine forms); the receiver's output is exactly the stream (every write through the one MultiWriter, no Seek/Truncate); no slice of the sender's read window is kept across ptr calls. The search loop's own offset arithmetic, the rolling checksum and the receiver's literal handling are NOT decided.",
          "Trusted: MD4. Not covered: window arithmetic in mapStruct/matched/receiveData beyond the clamp to the file size. One genuine defect repaired by a fix: commit.",
          "DESIGN.md §3 C02"),
  "C06": ("API confinement over the reachable call graph + SSA provenance of the os.OpenRoot argument (phi-edge guards) + interface-implementation enumeration",
@@ -67,8 +67,8 @@ CLAIMED = {
          "Trusted: MD4 (probabilistic), renameio semantics. The idiom set for error propagation is the repository's (`if err != nil {return}` / `return f()`).",
          "DESIGN.md §3 C03"),
  "C04": ("API confinement over the reachable call graph + SSA dominance/typestate (defer-cleanup dominates returns, no write after replace, join before effects)",
-         "Decides that nothing reachable from the receiver writes content or links under a final name except via renameio.NewPendingFile(WithRoot only)/SymlinkRoot; that a deferred Cleanup covers every return after creation; no write after the atomic replace; no unlink before a replacement except at the two type-change sites; first error aborts before post-transfer effects. Crash atomicity itself is rename(2) inside renameio (trusted).",
-         "Trusted: rename(2)/renameio atomicity. Not covered: temp-file removal when Do returns while the receiver goroutine is still blocked (see DESIGN.md).",
+         "Decides that nothing reachable from the receiver writes content or links under a final name except via renameio.NewPendingFile(WithRoot only)/SymlinkRoot; that a deferred Cleanup covers every return after creation; no write after the atomic replace; no unlink before a replacement except where rename(2) cannot replace (directory ↔ non-directory); the delete pass removes only entries a negative list lookup covers; the pending file's root is a handle of its own, closed after Cleanup (so the temporary file can still be removed after Do returned and its callers closed DestRoot); first error aborts before post-transfer effects. Crash atomicity itself is rename(2) inside renameio (trusted).",
+         "Trusted: rename(2)/renameio atomicity. Two genuine defects repaired by fix: commits (F20, F25).",
          "DESIGN.md §3 C04"),
  "C07": ("guard dominance lifted over the rsyncd package call graph + reachability (send path effect-free) + field-store provenance",
          "Decides: every write effect / entry into the receiving engine in package rsyncd is dominated by Module.Writable==true on every chain; nothing reachable from the send path mutates the file system; Writable and the module table are immutable after construction; FS-backed modules cannot be writable.",
